@@ -160,6 +160,10 @@ func (m *MuxBroker) Run() {
 		select {
 		case p.ch <- stream:
 		default:
+			// A connection for this ID is already waiting to be accepted, so
+			// nobody can ever pick this one up: refuse it instead of leaking it.
+			stream.Close()
+			continue
 		}
 
 		// Wait for a timeout
@@ -202,9 +206,12 @@ func (m *MuxBroker) timeoutWait(id uint32, p *muxBrokerPending) {
 	// If we timed out, then check if we have a channel in the buffer,
 	// and if so, close it.
 	if timeout {
+		// Non-blocking: the connection may have been accepted at the very
+		// moment the timer fired, and we are holding the broker lock.
 		select {
 		case s := <-p.ch:
 			s.Close()
+		default:
 		}
 	}
 }
